@@ -79,11 +79,24 @@ type followUp struct {
 }
 
 const bodySrc = `
-local rec, res, res2, pcall, cowrap, load, rcontext, tostring, next, getmetatable, rawequal, pack, unpack, type, fread, ioread, filemt = ...
+local rec, res, res2, pcall, cowrap, load, rcontext, tostring, next, getmetatable, rawequal, pack, unpack, type, fread, ioread, filemt, setmetatable = ...
 local function id(...) return ... end
 local function body(sp, probe, f, tgt, w1, ...)
   local mt0
   if w1 then mt0 = getmetatable(w1) end
+  if sp == 9 then
+    -- the call is made by a __gc finalizer; the context has its own finalizer
+    -- pool (see enter), so the finalizer runs inside the context, when it ends
+    local args = pack(...)
+    setmetatable({}, {__gc = function()
+      rec("B", tostring(rcontext()))
+      local r = pack(pcall(f, unpack(args, 1, args.n)))
+      res(unpack(r, 1, r.n))
+      rec("A", tostring(rcontext()))
+      if w1 then rec("W", tostring(next(w1) == nil and rawequal(getmetatable(w1), mt0))) end
+    end})
+    return
+  end
   local call
   if sp == 0 then call = function(...) return id(f(...)) end
   elseif sp == 1 then call = function(...) return f(...) end
@@ -238,7 +251,7 @@ func (mc *machine) prepare(required rt.ComplianceFlags) {
 	out, err := mc.hostCallN(rt.FunctionValue(clos),
 		rt.FunctionValue(rec), rt.FunctionValue(res), rt.FunctionValue(res2), mc.global("pcall"), mc.global("coroutine.wrap"), mc.global("load"),
 		mc.global("runtime.context"), mc.global("tostring"), mc.global("next"), mc.global("getmetatable"), mc.global("rawequal"),
-		mc.global("table.pack"), mc.global("table.unpack"), mc.global("type"), fread, mc.global("io.read"), filemt)
+		mc.global("table.pack"), mc.global("table.unpack"), mc.global("type"), fread, mc.global("io.read"), filemt, mc.global("setmetatable"))
 	must(err)
 	mc.body, mc.cbFn = out[0], out[1]
 
@@ -258,6 +271,16 @@ func (mc *machine) enter(luaSpelling bool, required rt.ComplianceFlags, args []r
 		}
 	}()
 	t := mc.r.MainThread()
+	if n, ok := args[0].TryInt(); ok && n == 9 {
+		// finalizer spelling: the context gets its own finalizer pool, so that
+		// the __gc function runs inside the context when it ends (the Lua API
+		// has no way to ask for that without also setting a limit, which would
+		// change the required flags: both context spellings use the Go API)
+		ctx, _ := t.CallContext(rt.RuntimeContextDef{RequiredFlags: required, GCPolicy: rt.IsolateGCPolicy}, func() error {
+			return rt.Call(t, mc.body, args, rt.NewTerminationWith(nil, 0, false))
+		})
+		return ctx.Status().String(), ""
+	}
 	if luaSpelling {
 		// runtime.callcontext({flags = "..."}, body, args...)
 		def := rt.NewTable()
